@@ -21,6 +21,20 @@ def _flip_hex(h, rng):
     return h[:i] + ("0" if h[i] != "0" else "1") + h[i + 1:]
 
 
+def _shapes(ctx):
+    """(R) spec -> code: TLC enumerates EVERY well-formed keyset shape (status x key-type class x primary position) of up
+    to 3 (quick) / 4 (thorough) keys from PRFSet!WellFormed; the driver instantiates each with real keys."""
+    path = os.path.join(ctx.scratch, "shapes.ndjson")
+    r = ctx.tlc("Plan_KeysetShapes", env=dict(VERIF_SHAPES=path, VERIF_MAXKEYS=4 if ctx.thorough else 3, VERIF_TYPES=3),
+                workers=1, timeout=1200)
+    if not r.ok or not os.path.exists(path):
+        raise vlib.Infra("Plan_KeysetShapes failed: %s" % (r.error or r.out[-1500:]))
+    n = sum(1 for x in open(path) if x.strip())
+    ctx.stage("R:Plan_KeysetShapes", shapes=n, max_keys=4 if ctx.thorough else 3)
+    ctx.add_states(r)
+    return path, n
+
+
 def corrupt(ev, rng):
     ev = dict(ev)
     k = ev["ev"]
@@ -68,13 +82,15 @@ def _sig(e, bad):
     return "subtle.ComputeHKDF/%s %s" % (e.get("hash"), bad[0])
 
 
-def _coverage(ctx, trace):
+def _coverage(ctx, trace, n_shapes):
     """Coverage expectations: exit 2 when the enumeration is broken or the model of what the library accepts is
     out of date; never a verdict about the code."""
     c = collections.Counter()
     hk_in_range_refused = None
+    planned = 0
     for line in open(trace):
         e = json.loads(line)
+        planned += e["ev"] == "set" and e.get("route") == "plan"
         c[(e["ev"], e.get("alg", e.get("hash", "")))] += 1
         if e["ev"] == "hkdf" and e["hash"] in DIGEST and not e["ok"] and not e["panic"] and 10 <= e["n"] <= 255 * DIGEST[e["hash"]]:
             hk_in_range_refused = e
@@ -82,6 +98,9 @@ def _coverage(ctx, trace):
             mx = 16 if e["alg"] == "CMAC" else DIGEST[e["hash"]]
             if not e["err"] and not e["panic"] and len(e["outs"]) != mx + 1:
                 raise vlib.Infra("C15: sweep does not cover 0..max")
+    if planned != n_shapes:
+        raise vlib.Infra("C15: %d of the %d keyset shapes enumerated by TLC were executed" % (planned, n_shapes))
+    ctx.cov["keyset_shapes_executed"] = "%d/%d" % (planned, n_shapes)
     for alg in ("HMAC", "CMAC"):
         if c[("sweep", alg)] == 0:
             raise vlib.Infra("C15: no sweep over %s" % alg)
@@ -106,8 +125,9 @@ def run(ctx):
         "class (0..4096 around hash-block and padding boundaries) x content class; for HMAC/CMAC every output length "
         "0..max in one sweep plus max+1, max+2, 2max, 2^16, 2^31, 2^32-1; for HKDF the boundary set {0,1,hLen-1,hLen,hLen+1,"
         "2hLen+-1,254hLen,255hLen-1,255hLen,255hLen+1,...} plus a sample (every length 0..3hLen+1 thorough); prefix law on "
-        "pairs of real outputs; PRF sets over generated keysets (1..5 keys, mixed types, ENABLED/DISABLED/DESTROYED, "
-        "extreme ids); subtle.ComputeHKDF over hash x salt{nil,empty,...} x info x key x length incl. its bounds and "
+        "pairs of real outputs; PRF sets over EVERY keyset shape TLC enumerates (Plan_KeysetShapes: status x type class x primary position, up "
+        "to 3 keys quick / 4 thorough), over generated keysets (1..5 keys, mixed types, ENABLED/DISABLED/DESTROYED, "
+        "extreme ids) and over keysets the library generates from its key templates; subtle.ComputeHKDF over hash x salt{nil,empty,...} x info x key x length incl. its bounds and "
         "Wycheproof inputs. Every event judged by TLC against PRF.tla / PRFSet.tla / HKDF.tla")
     ctx.assumptions += ["HMAC/SHA and the AES block are the JDK's (independent of Go's standard library)",
                         "'all inputs' is covered by length and content classes, not exhaustively",
@@ -120,9 +140,10 @@ def run(ctx):
         for m in mism:
             ctx.violation("replay", "%s (spec expected %s)" % (m["bad"][0], str(m["bad"][1:])[:200]), dict(event=m["event"], spec_says=m["bad"]))
         return
-    r = ctx.run([drv, "-out", trace])
+    shapes, n_shapes = _shapes(ctx)
+    r = ctx.run([drv, "-out", trace, "-shapes", shapes])
     ctx.log(r.stdout.strip())
-    _coverage(ctx, trace)
+    _coverage(ctx, trace, n_shapes)
     _shuffle(ctx, trace)
     lines = open(trace).read().splitlines()
     for k in (15, len(lines) // 3, len(lines) // 2, len(lines) - 300):
